@@ -43,7 +43,8 @@ RULE = (
     "every step addresses a drawn remote (usually the one of the previous step) and every invariant is "
     "evaluated per (remote, its own index) for ALL remotes after every step, so nothing delivered to or "
     "indexed for one remote may surface in another's index or answers: push(closed request: directories with all their "
-    "files or shallow=False; optional upload-failure subset or abort injected at the final placement call; "
+    "files or shallow=False; optional upload-failure subset or abort injected at the final placement call, the failure in 1 of 3 "
+    "leaving the first half of the bytes, unprotected, under the final name (non-atomic remote); "
     "cache_odb = cache or remote as index.push does), fetch(closed request into a fresh empty store with "
     "src_index), status(arbitrary query, shallow/expanded, with the index; trees read from the cache or, shallow, "
     "from the remote itself), delete_remote(external deletion of directory and/or file objects, preferring "
@@ -61,7 +62,9 @@ RULE = (
     "index held a directory absent from the remote, the index holds no absent directory and only files listed "
     "by directories it holds; after ANY call that queried >= 1 directory (interrupted or not) the index holds no "
     "id that is neither in the remote nor listed by a directory object present there; exists/missing partition "
-    "the expanded query; index contents survive reopen. "
+    "the expanded query; index contents survive reopen; whatever a push added to the index that was not a name in "
+    "the remote before (nor listed by a directory that was) is there INTACT afterwards. 'In the remote' means "
+    "intact bytes for a LocalHashFileDB remote and the name for the name-trusting generic class. "
     "Non-trivial = a failed/aborted transfer or an effective external deletion precedes a status evaluation "
     "with the index; distinct = SHA-1 of the case JSON / executed trace."
 )
@@ -80,6 +83,10 @@ ASSUMPTIONS = [
     "(that is where faults and aborts are injected)",
     "several remotes of one history share one tmp_dir and differ in their paths, so get_index() gives each its "
     "own index name; all handles are opened in one process (as index.push/fetch do for consecutive remotes)",
+    "a half-written leftover under an object's name is not an object of a LocalHashFileDB remote (its existence "
+    "queries discard it); the generic class trusts names, so there the leftover counts as present for later calls "
+    "and only the index gains of the failing push itself are judged by content; a call that raises "
+    "ObjectFormatError because the remote holds such a half-written .dir object is a refusal, not a violation",
     "a fetch is issued closed and shallow with cache_odb holding the directory objects, as index.fetch does",
     "an interrupted index update is modelled at transaction granularity (sqlite commits are atomic): the call "
     "dies on entering its n-th ObjectDBIndex write transaction; index.clear() is not interrupted",
